@@ -3,7 +3,7 @@
 From Coq Require Import ZArith List Bool Lia Sorting.Sorted.
 From Coq Require Import ZifyBool.
 From Geo Require Import Base.GoPrim Gen.CellIDCov Model.Coverer.
-From Geo Require Import Proofs.C05_CellFacts Proofs.C05_CellUnion Proofs.C05_Coverer Proofs.C05_Fast.
+From Geo Require Import Proofs.C05_CellFacts Proofs.C05_CellUnion Proofs.C05_Coverer Proofs.C05_Fast Proofs.C05_Main.
 Import ListNotations.
 Local Open Scope Z_scope.
 
@@ -95,3 +95,19 @@ Section CU.
       replace (negb (i =? n) && (lo (nthZ l i 0) <=? hi c)) with true by lia. reflexivity.
   Qed.
 End CU.
+
+(** the premises of the main theorems are jointly satisfiable: the region "face cell 0" with the
+    id-range predicates of s2.Cell, the face itself as bound and an identity fallback *)
+Lemma hyps_example_full :
+  let face0 := s2_CellIDFromFace 0 in
+  let pts := fun x => leaf_in x face0 in
+  C05_Main.ValidB [face0] /\ FallbackOK (fun l => Some l) /\ C05_Main.SoundB [face0] pts /\
+  SoundI (s2_CellID_Intersects face0) pts /\ SoundC (s2_CellID_Contains face0) pts.
+Proof.
+  cbv zeta.
+  assert (V0 : valid (s2_CellIDFromFace 0)).
+  { exists 0. apply C05_Main.valid_at_compute. vm_compute. reflexivity. }
+  destruct C05_Main.hyps_example as (H1 & H2 & H3). split; [exact H1|]. split; [exact H2|]. split; [exact H3|]. split.
+  - intros c Vc (x & _ & Hxc & Hp). apply cell_intersects_sound; auto. exists x; auto.
+  - intros c Vc Hc x _ Hxc. eapply cell_contains_sound; eauto.
+Qed.
